@@ -39,3 +39,65 @@ func cmdCallees(args []string) int {
 	}
 	return 0
 }
+
+func cmdBlocking(args []string) int {
+	prog, err := eng.Load("/repo", nil)
+	if err != nil {
+		fmt.Println(err)
+		return 2
+	}
+	var roots []*eng.Func
+	for _, t := range []string{"(*dht.IpfsDHT)", "(*dht/fullrt.FullRT)", "(*dht/dual.DHT)"} {
+		for _, m := range []string{"GetClosestPeers", "FindPeer", "GetValue", "SearchValue", "FindProviders", "FindProvidersAsync", "PutValue", "Provide", "GetPublicKey", "ProvideMany", "PutMany"} {
+			if f := prog.Func(t + "." + m); f != nil {
+				roots = append(roots, f)
+			}
+		}
+	}
+	reach := prog.Reachable(roots...)
+	n := 0
+	for _, f := range prog.Funcs() {
+		if !reach[f] {
+			continue
+		}
+		for _, op := range f.BlockingOps() {
+			n++
+			esc, why := op.Escapable()
+			ch := ""
+			if op.Chan != nil {
+				ch = eng.ExprStr(op.Chan)
+			}
+			fmt.Printf("%-70s %-7s %-28s esc=%v %s  @%s\n", f.Name, op.Kind, ch, esc, why, prog.ShortPos(op.Node.Pos()))
+		}
+	}
+	fmt.Println(len(reach), "reachable functions;", n, "blocking operations")
+	return 0
+}
+
+func cmdCfg(args []string) int {
+	prog, err := eng.Load("/repo", nil)
+	if err != nil {
+		fmt.Println(err)
+		return 2
+	}
+	f := prog.Func(args[0])
+	if f == nil {
+		fmt.Println("function not found")
+		return 2
+	}
+	cf := f.CFG()
+	for _, b := range cf.G.Blocks {
+		if !b.Live {
+			continue
+		}
+		fmt.Printf("block %d %s succs=", b.Index, b.Kind)
+		for _, s := range b.Succs {
+			fmt.Printf("%d ", s.Index)
+		}
+		fmt.Println()
+		for _, n := range b.Nodes {
+			fmt.Printf("    %T @%s\n", n, prog.ShortPos(n.Pos()))
+		}
+	}
+	return 0
+}
